@@ -657,40 +657,60 @@ func (f *SQLFormatter) formatExpression(expr ast.Expression) error {
 			f.builder.WriteString(" ")
 			return f.formatExpression(e.Left)
 		}
+		upperOp := strings.ToUpper(e.Operator)
 		// Handle IS NULL / IS NOT NULL specially
-		if e.Operator == "IS NULL" {
-			if err := f.formatExpression(e.Left); err != nil {
+		if upperOp == "IS NULL" || upperOp == "IS NOT NULL" {
+			if err := f.formatOperand(e.Left, 4, false); err != nil {
 				return err
 			}
-			if e.Not {
+			if e.Not || upperOp == "IS NOT NULL" {
 				f.builder.WriteString(" IS NOT NULL")
 			} else {
 				f.builder.WriteString(" IS NULL")
 			}
 			return nil
 		}
-		// Handle LIKE operator
-		if e.Operator == "LIKE" {
-			if err := f.formatExpression(e.Left); err != nil {
+		// Handle LIKE-style operators: the pattern is read as a primary expression
+		switch upperOp {
+		case "LIKE", "ILIKE", "SIMILAR TO", "REGEXP", "RLIKE":
+			if e.Not && (upperOp == "REGEXP" || upperOp == "RLIKE") {
+				break
+			}
+			if err := f.formatOperand(e.Left, 4, false); err != nil {
 				return err
 			}
 			if e.Not {
-				f.builder.WriteString(" NOT LIKE ")
+				f.builder.WriteString(" NOT " + e.Operator + " ")
 			} else {
-				f.builder.WriteString(" LIKE ")
+				f.builder.WriteString(" " + e.Operator + " ")
 			}
-			if err := f.formatExpression(e.Right); err != nil {
-				return err
-			}
+			return f.formatOperand(e.Right, 9, false)
+		case "AGAINST":
+			// MATCH (...) AGAINST (...) has its own syntax
+			f.builder.WriteString(e.SQL())
 			return nil
 		}
-		// Standard binary expression
-		if err := f.formatExpression(e.Left); err != nil {
+		// Standard binary expression, with the parentheses precedence requires
+		prec := ast.OperatorPrecedence(e.Operator)
+		if e.CustomOp != nil {
+			prec = ast.OperatorPrecedence(e.CustomOp.String())
+		}
+		if e.Not {
+			f.builder.WriteString("NOT (")
+		}
+		if err := f.formatOperand(e.Left, prec, false); err != nil {
 			return err
 		}
-		f.builder.WriteString(" " + e.Operator + " ")
-		if err := f.formatExpression(e.Right); err != nil {
+		if e.CustomOp != nil {
+			f.builder.WriteString(" " + e.CustomOp.String() + " ")
+		} else {
+			f.builder.WriteString(" " + e.Operator + " ")
+		}
+		if err := f.formatOperand(e.Right, prec, true); err != nil {
 			return err
+		}
+		if e.Not {
+			f.builder.WriteString(")")
 		}
 	case *ast.FunctionCall:
 		f.builder.WriteString(e.Name + "(")
@@ -789,8 +809,8 @@ func (f *SQLFormatter) formatExpression(expr ast.Expression) error {
 		f.builder.WriteString(" ")
 		f.writeKeyword("END")
 	case *ast.BetweenExpression:
-		// Handle BETWEEN expr AND expr
-		if err := f.formatExpression(e.Expr); err != nil {
+		// Handle BETWEEN expr AND expr (all three operands are read above the comparison level)
+		if err := f.formatOperand(e.Expr, 4, true); err != nil {
 			return err
 		}
 		if e.Not {
@@ -801,18 +821,18 @@ func (f *SQLFormatter) formatExpression(expr ast.Expression) error {
 			f.writeKeyword("BETWEEN")
 		}
 		f.builder.WriteString(" ")
-		if err := f.formatExpression(e.Lower); err != nil {
+		if err := f.formatOperand(e.Lower, 4, true); err != nil {
 			return err
 		}
 		f.builder.WriteString(" ")
 		f.writeKeyword("AND")
 		f.builder.WriteString(" ")
-		if err := f.formatExpression(e.Upper); err != nil {
+		if err := f.formatOperand(e.Upper, 4, true); err != nil {
 			return err
 		}
 	case *ast.InExpression:
 		// Handle IN (values) or IN (subquery)
-		if err := f.formatExpression(e.Expr); err != nil {
+		if err := f.formatOperand(e.Expr, 4, true); err != nil {
 			return err
 		}
 		if e.Not {
@@ -858,7 +878,16 @@ func (f *SQLFormatter) formatExpression(expr ast.Expression) error {
 		// Handle NOT expr, - expr, etc.
 		f.builder.WriteString(e.Operator.String())
 		f.builder.WriteString(" ")
-		if err := f.formatExpression(e.Expr); err != nil {
+		if e.Operator == ast.Not && ast.BeginsWithExists(e.Expr) {
+			// NOT EXISTS has a tree shape of its own; a unary NOT keeps its parentheses
+			f.builder.WriteString("(")
+			if err := f.formatExpression(e.Expr); err != nil {
+				return err
+			}
+			f.builder.WriteString(")")
+			return nil
+		}
+		if err := f.formatOperand(e.Expr, 3, false); err != nil {
 			return err
 		}
 	case *ast.AliasedExpression:
@@ -872,10 +901,31 @@ func (f *SQLFormatter) formatExpression(expr ast.Expression) error {
 		// Quote alias if it contains special characters or is a reserved keyword
 		f.formatIdentifier(e.Alias)
 	default:
-		// Fallback for unsupported expressions
-		f.builder.WriteString(expr.TokenLiteral())
+		// Expression kinds without a case of their own are written by the AST's serialiser
+		if s, ok := expr.(interface{ SQL() string }); ok {
+			f.builder.WriteString(s.SQL())
+		} else {
+			f.builder.WriteString(expr.TokenLiteral())
+		}
 	}
 
+	return nil
+}
+
+// formatOperand writes expr as an operand of an operator of strength parentPrec, parenthesised
+// when it would otherwise be read back as a different tree.
+func (f *SQLFormatter) formatOperand(expr ast.Expression, parentPrec int, right bool) error {
+	if expr == nil {
+		return nil
+	}
+	if !ast.NeedsParentheses(expr, parentPrec, right) {
+		return f.formatExpression(expr)
+	}
+	f.builder.WriteString("(")
+	if err := f.formatExpression(expr); err != nil {
+		return err
+	}
+	f.builder.WriteString(")")
 	return nil
 }
 
